@@ -1438,8 +1438,10 @@ def gen_c07_spec(rng: random.Random) -> Dict[str, Any]:
     msgs = []
     fail = []
     for i in range(n):
-        task = rng.choice(["t_async", "t_async", "t_sync"])
+        task = rng.choice(["t_async", "t_async", "t_sync", "t_async", "t_async", "t_sync", "t_asyncified"])
         beh = gen_beh(rng, ["ok", "ok", "raise", "raise", "noresult"], allow_genexit=True)
+        if beh["out"].startswith("raise:") and rng.random() < 0.12:
+            beh["out"] = "raise:" + rng.choice(["Group1", "Group2", "GroupBase1", "GroupNoResult"])
         m: Dict[str, Any] = {"at": ats[i], "task": task, "ackable": rng.random() < 0.5, "beh": beh,
                              "labels": rng.choice([{}, {"a": 1}, {"s": "x", "f": 1.5, "b": True}, {"by": b"\xff\x00"},
                                                    {"_trace": "t-9", "X-Taskiq-origin": "edge", "__n": 2}, {"blob": b"", "z": 0, "e": "", "ff": False}])}
